@@ -29,6 +29,7 @@ def rules(ctx):
     C06.c064(ctx)
     c015(ctx)
     c016(ctx)
+    c017(ctx)
     # a key (or tombstone) missing from an SST's bloom filter makes Sst::load miss it and the search fall through to
     # an older version: the builder-side accumulation rule of C10.2 is a necessary condition of point reads too
     from . import C10
@@ -99,6 +100,50 @@ def c016(ctx):
                     if tgt is not None and P.reach(g, [(tgt, 0)], [pt]) is not None:
                         bad = True
             ctx.check(R, g, "conflict-refuses", not bad, "a conflict with an ongoing compaction refuses the candidate", "a conflicting candidate can still be chosen", pt=pt)
+
+
+def c017(ctx):
+    R = "C01.7"
+    ctx.declare(R, "a compaction's input set stays closed when it is expanded: a file is added only if its whole key range lies inside the range "
+                   "already covered (or the bounds are recomputed afterwards); a file that sticks out would be rewritten beneath older, "
+                   "non-input files of the levels in between")
+    f = next((x for x in ctx.prog.fns.values() if x.skey.endswith("tree::Version::expand_compaction")), None)
+    if f is None:
+        ctx.violate(R, "lsmtk::tree::Version::expand_compaction", "anchor", "expand_compaction not found", kind="anchor-missing")
+        return
+    pushes = [p_ for p_ in P.call_points(f, r"Vec.*::push$") if "SstMetadata" in (P.term_at(f, p_).get("ga") or "")]
+    ctx.floor(R, "expand_compaction candidate pushes", len(pushes), 1)
+    recompute = P.call_points(f, r"tree::Version::compute_bounds$")
+    for p_ in pushes:
+        lo = hi = False
+        for bb, lab, srcs in K.guards(f, p_):
+            if lab != "sw:1":
+                continue
+            for s_ in srcs:
+                if s_["k"] == "call" and re.search(r"::(le|ge)$", s_["callee"]) and len(s_["t"]["args"]) == 2:
+                    a, b = s_["t"]["args"]
+                    fa = {x["f"] for x in P.origins(f, a) if x["k"] == "field"}
+                    fb = {x["f"] for x in P.origins(f, b) if x["k"] == "field"}
+                    swap = s_["callee"].endswith("::ge")
+                    if swap:
+                        fa, fb = fb, fa
+                    # range.first <= file.first  : the left side is the running range bound (no SstMetadata field), the right the file's first key
+                    if "first_key" in fb and "last_key" not in fb and "first_key" not in (fa - {"first_key"}) and (not fa or fa == {"first_key"}):
+                        la = {x["owner"] for x in P.origins(f, a) if x["k"] == "field" and x["f"] == "first_key"}
+                        lb = {x["owner"] for x in P.origins(f, b) if x["k"] == "field" and x["f"] == "first_key"}
+                        if any("SstMetadata" in o for o in (lb if not swap else la)):
+                            lo = True
+                    if "last_key" in fa and (not fb or fb == {"last_key"}):
+                        la = {x["owner"] for x in P.origins(f, a) if x["k"] == "field" and x["f"] == "last_key"}
+                        lb = {x["owner"] for x in P.origins(f, b) if x["k"] == "field" and x["f"] == "last_key"}
+                        if any("SstMetadata" in o for o in (la if not swap else lb)):
+                            hi = True
+        redo = any(P.reach(f, P.after(f, p_), [r_]) is not None for r_ in recompute)
+        ctx.check(R, f, "expansion-contained", (lo and hi) or redo,
+                  "a file joins the compaction only when range.first <= file.first and file.last <= range.last" if (lo and hi) else "the bounds are recomputed after a file is added",
+                  "expand_compaction adds a file without checking that its key range lies inside the compaction's range (first: %s, last: %s) and without "
+                  "recomputing the bounds: a file that overlaps the range and sticks out is compacted past older files of the levels in between -- a point "
+                  "read then finds the older version first" % (lo, hi), pt=p_)
 
 
 def false_edges_of(f, callee_pat, arg_pred=None):
